@@ -30,6 +30,7 @@ var c9mapKeys = []c9key{
 	{"{a: 1}", "obj{a:1}", false, `{"a": 1}`}, {"{}", "obj{}", false, "{}"}, {"[1.0]", "arr[1.0]", false, "[1.000000]"}, {`["a"]`, `arr["a"]`, false, `["a"]`},
 	{"0.3", "float|0.3", true, "0.300000"}, {"(0.1 + 0.2)", "float|0.30000000000000004", true, "0.300000"}, {"0.0", "float|0", true, "0.000000"},
 	{"1.0e-10", "float|1e-10", true, "0.000000"}, {"(1.0 / 4000000000.0)", "float|2.5e-10", true, "0.000000"}, {"1.0000000001", "float|1.0000000001", true, "1.000000"},
+	{"{zq: 0}.bear({a: 1})", "obj{a:1}", false, `{"a": 1}`}, {"{a: 1}.bear.bro({a: 1})", "obj{a:1}", false, `{"a": 1}`}, {"{zq: 0}.bear({})", "obj{}", false, "{}"},
 	{"{a: [1]}", "obj{a:[1]}", false, `{"a": [1]}`}, {"[0 + 1]", "arr[1]", false, "[1]"}, {"{'a: 1}", "obj{a:1}", false, `{"a": 1}`},
 }
 
@@ -279,6 +280,10 @@ func c9check(ip *interp.Interp, c *c9case) (key, detail string) {
 			{"A", "o.A", render(pub, "i")}, {"iteration", "o@{|k, v| [k, v]}", render(pub, "i")},
 			{"keys(private?: true)", "o.keys(private?: true)", render(all, "k")}, {"values(private?: true)", "o.values(private?: true)", render(all, "v")},
 			{"items(private?: true)", "o.items(private?: true)", render(all, "i")},
+			// only `true` asks for the private names
+			{"keys(private?: false)", "o.keys(private?: false)", render(pub, "k")}, {"keys(private?: nil)", "o.keys(private?: nil)", render(pub, "k")},
+			{"values(private?: nil)", "o.values(private?: nil)", render(pub, "v")}, {"items(private?: false)", "o.items(private?: false)", render(pub, "i")},
+			{"keys(**{private?: nil})", "o.keys(**{private?: nil})", render(pub, "k")}, {"keys through a wrapper without the flag", "{|ob, private?: nil| ob.keys(private?: private?)}(o)", render(pub, "k")},
 		} {
 			if k, d := expect(t.acc, t.expr, t.want); k != "" {
 				return k, d
@@ -382,6 +387,14 @@ func c9check(ip *interp.Interp, c *c9case) (key, detail string) {
 	for _, p := range c.model {
 		if k, d := expect("index present ("+pickS(p.key.scalar, "scalar", "non-scalar")+" key)", "m["+p.key.src+"]", c9v(p.val)); k != "" {
 			return k, d
+		}
+		// every other spelling of an equal key finds the same pair
+		for _, k2 := range c9mapKeys {
+			if k2.ident == p.key.ident && k2.src != p.key.src {
+				if k, d := expect("index present through an equal key written differently", "m["+k2.src+"]", c9v(p.val)); k != "" {
+					return k, d
+				}
+			}
 		}
 	}
 	for _, abs := range []string{"99", "[9]", `"zq"`, "{zq: 1}", "9.5", `"zq_absent"`} {
